@@ -23,7 +23,7 @@ class C12(Prop):
             "trades, targets k/8 (weights) or k/4 contracts, thresholds k/8 or 0, fractional and whole-lot modes; "
             "imbalance weights land exactly at, just below and just above the threshold; lot imbalances in (-1, 1) are "
             "forced; imbalances of less than 1e-7 contracts that are a large share of the account (units worth 2^24+ "
-            "accounts) or tiny targets in numbers of contracts, opening a position and topping one up; in 5/8 of the main family the allocation is handed over as numpy float32 "
+            "accounts) or tiny targets in numbers of contracts, opening a position and topping one up; targets in contracts a hair (2^-36 .. 2^-45) inside a whole number of lots; in 5/8 of the main family the allocation is handed over as numpy float32 "
             "/ float64 scalars or arrays or a tuple (all values exactly representable). Non-trivial = some imbalance weight equals the threshold exactly, or a held contract is absent "
             "from the target with a positive threshold, or a sub-lot imbalance occurs in whole-lot mode; distinct = "
             "distinct cases")
@@ -114,6 +114,7 @@ class C12(Prop):
         by_weight = rng.random() < 0.7
         margin = Fraction(rng.choice([0, 0, 1, 1, 2, 3]), 8) if rng.random() < 0.8 else Fraction(1, 64)
         # prior holdings
+        held_keys = set()
         for k in keys:
             if rng.random() < 0.6:
                 lots = nlv / price[k] / mult[k]
@@ -126,7 +127,9 @@ class C12(Prop):
                 if q != 0:
                     t += 1
                     ops.append(["tradeq", k, fr(q), t])
+                    held_keys.add(k)
         tgt = {}
+        hair = False
         for k in rng.sample(keys, rng.randint(0, len(keys))):
             if rng.random() < 0.25:
                 tgt[k] = "0"      # an explicit zero target: dropped by the allocation, i.e. "absent from the target"
@@ -140,6 +143,12 @@ class C12(Prop):
                 tgt[k] = fr(w)
             else:
                 tgt[k] = fr(Fraction(rng.randint(-64, 64), 4))
+                if rng.random() < 0.2 and k not in held_keys:
+                    # (only on a contract that is not held: hair minus a large holding would need more than 53 bits)
+                    # a hair (2^-36 .. 2^-45 of a lot) inside a whole number of lots: truncation, not rounding
+                    kk = rng.choice([-3, -2, -1, 1, 2, 3])
+                    tgt[k] = fr(Fraction(kk) - (1 if kk > 0 else -1) * Fraction(1, 2 ** rng.randint(36, 45)))
+                    hair = True
         t += 10
         ops.append(["rebal", t, int(by_weight), 1, int(not whole), fr(margin), tgt])
         if rng.random() < 0.5:
@@ -148,7 +157,8 @@ class C12(Prop):
         # allocation is handed over (Python floats, numpy float32 / float64 scalars or arrays, a tuple) changes nothing
         return dict(contracts=contracts, fees=["0", "0", "0"], deposit="65536", exact=True, ops=ops,
                     probe_make_trades=rng.random() < 0.5,
-                    alloc_form=rng.choice([None, None, None, "f32", "f32arr", "np64", "arr", "tuple"]))
+                    # (a hair target needs 40+ bits of mantissa: not handed over as float32)
+                    alloc_form=rng.choice([None, None, None, "np64", "arr", "tuple"] + ([] if hair else ["f32", "f32arr"])))
 
     def run_impl(self, case):
         r, s = bs.run_case(case, self.COMPARE)
